@@ -33,7 +33,6 @@ from .nodes import (
     InputGroup,
     Node,
     NodeState,
-    TransientIdentity,
     Value,
     Var,
     VarValue,
@@ -65,6 +64,16 @@ def _remove_model_seed_inputs(nodes: Iterable[Node]) -> None:
         if seed.name.startswith("_model_") and seed.name.endswith("_seed"):
             kwinputs = {kw: nd for kw, nd in node.kwinputs.items() if kw != "seed"}
             node.set_inputs(*node.inputs, **kwinputs)
+
+
+def _forward(node: Node, _name: str) -> Calc:
+    """
+    Creates a caching node that forwards the value of a user-defined node.
+
+    The node needs to cache its value, because Goose reads the model log-probability,
+    log-likelihood and log-prior from the model state.
+    """
+    return Calc(lambda x: x, node, _name=_name, update_on_init=False)
 
 
 def _reduced_sum(*args: Array) -> Array:
@@ -184,7 +193,7 @@ class GraphBuilder:
         """Adds the model log-likelihood node with the name ``_model_log_lik``."""
 
         if self.log_lik_node:
-            self.add(TransientIdentity(self.log_lik_node, _name="_model_log_lik"))
+            self.add(_forward(self.log_lik_node, _name="_model_log_lik"))
             return self
 
         _, _vars = self._all_nodes_and_vars()
@@ -197,7 +206,7 @@ class GraphBuilder:
         """Adds the model log-prior node with the name ``_model_log_prior``."""
 
         if self.log_prior_node:
-            self.add(TransientIdentity(self.log_prior_node, _name="_model_log_prior"))
+            self.add(_forward(self.log_prior_node, _name="_model_log_prior"))
             return self
 
         _, _vars = self._all_nodes_and_vars()
@@ -212,7 +221,7 @@ class GraphBuilder:
         """Adds the model log-probability node with the name ``_model_log_prob``."""
 
         if self.log_prob_node:
-            self.add(TransientIdentity(self.log_prob_node, _name="_model_log_prob"))
+            self.add(_forward(self.log_prob_node, _name="_model_log_prob"))
             return self
 
         nodes, _ = self._all_nodes_and_vars()
